@@ -21,7 +21,7 @@ RULE = ("seeded generator over kernel classes {isotropic scalar sigma, isotropic
         "axis-aligned sxx != syy (general path), correlated |r| < 0.3 / < 0.75 / < 0.925 / >= 0.925 (both signs), "
         "uniform box} x weights {persistence n=1,2,3 and real n, linear_ramp (all three branches), user weight} x "
         "point placement {inside, on a mesh node / region border, outside the region} x skew in {True, False} x "
-        "NEGATIVE weights of three kinds (pair below the diagonal under persistence with odd n, linear_ramp with low < 0, signed user weight; spec = signed sum of weight x mass); collections through transform(..., n_jobs=1/2) - the joblib branch - with skew=False and True, every returned image checked (a fifth of the plain cases also pass n_jobs=1); multi-step HISTORIES on one imager (transform; window moved at equal pixel count by the range setters or by fit on shifted data; transform; pixel_size doubled and restored; transform; in the fit_same variant the array given to fit is the SAME OBJECT that is transformed under the old window, right after the fit and again after the pixel-size round trip - equal-valued diagrams of one history are interned - and every array transform returned is overwritten with NaN once its values have been read) with general-path and fast-path kernels, every transform checked against the grid read from the public attributes birth_range / pers_range / pixel_size / resolution at that moment (the Coq run covers the last transform); an input-container class {float64 array, int64 array, nested list of ints, nested list of floats} x {linear_ramp with fractional low/high/start/end, persistence n in {1, 2, 1.5}, user callable} on integer-valued points; a UNIT class - magnitudes of the PARAMETERS: dyadic unit-scale cases (mixed placement) re-expressed in the units 2^-13 .. 2^-24 and 1e-4, 3e-5, 1e-5, 1e-6 (covariance entries 1e-8 .. 1e-15, box sides, ramp knots, window and pixel size of the order of the unit; one case in eight in the units 2^10, 1e3, 2^20) over kernels {axis-aligned, correlated in all four bands, uniform box, isotropic scalar / 2x2 as controls} x weights whose VALUES stay of order one so that the 1e-9 tolerance keeps its meaning {linear_ramp with scaled knots, user, persistence n=1 only for units >= 1e-5}, half of the 2x2 covariances handed over as nested lists (the axis-aligned / uniform / isotropic ones also go through the Coq run); a NEAR-ISOTROPIC class - 2x2 covariances whose variances differ by a relative 2e-7 .. 8e-6 and / or with a covariance of that relative order (they belong to the general path; treated as isotropic the pixels are off by ~1e-7); resolutions {2x2, 2x3, 3x2} (thorough: up to 3x4 / 4x3) with 1-2 points (thorough: up to 4), dyadic and "
+        "NEGATIVE weights of three kinds (pair below the diagonal under persistence with odd n, linear_ramp with low < 0, signed user weight; spec = signed sum of weight x mass); collections through transform(..., n_jobs=1/2) - the joblib branch - with skew=False and True, every returned image checked (a fifth of the plain cases also pass n_jobs=1); multi-step HISTORIES on one imager (transform; window moved at equal pixel count by the range setters or by fit on shifted data; transform; pixel_size doubled and restored; transform; in the fit_same variant the array given to fit is the SAME OBJECT that is transformed under the old window, right after the fit and again after the pixel-size round trip - equal-valued diagrams of one history are interned - and every array transform returned is overwritten with NaN once its values have been read) with general-path and fast-path kernels, every transform checked against the grid read from the public attributes birth_range / pers_range / pixel_size / resolution at that moment (the Coq run covers the last transform); an input-container class {float64 array, int64 array, nested list of ints, nested list of floats} x {linear_ramp with fractional low/high/start/end, persistence n in {1, 2, 1.5}, user callable} on integer-valued points; a UNIT class - magnitudes of the PARAMETERS: dyadic unit-scale cases (mixed placement) re-expressed in the units 2^-13 .. 2^-24 and 1e-4, 3e-5, 1e-5, 1e-6 (covariance entries 1e-8 .. 1e-15, box sides, ramp knots, window and pixel size of the order of the unit; one case in eight in the units 2^10, 1e3, 2^20) over kernels {axis-aligned, correlated in all four bands, uniform box, isotropic scalar / 2x2 as controls} x weights whose VALUES stay of order one so that the 1e-9 tolerance keeps its meaning {linear_ramp with scaled knots, user, persistence n=1 only for units >= 1e-5}, half of the 2x2 covariances handed over as nested lists (the axis-aligned / uniform / isotropic ones also go through the Coq run); a NEAR-ISOTROPIC class - 2x2 covariances whose variances differ by a relative 2e-7 .. 8e-6 and / or with a covariance of that relative order (they belong to the general path; treated as isotropic the pixels are off by ~1e-7); SIZE classes - (bulk) diagrams of block + remainder pairs for the blocks 32 .. 4096 (quick: above 1024, 2048 and 4096 on the isotropic fast path AND on the general path - axis-aligned, uniform, correlated -, plus 64 / 256 / 512 and 2 x 1024; never a multiple of a listed block nor of 16), random-double pairs in and around the window, on mesh nodes and far outside, all weights positive, handed over as float64 array / nested list / column-major array / non-contiguous two-column view of a wider array; (bulkhist) three diagrams of decreasing size (block + remainders, then 3-9 pairs) and the first one again through ONE imager, as successive calls or as one collection (n_jobs None / 2); (biggrid) 1-3 pairs on grids whose pixel or corner count is just above 512 / 1024 (thorough: 2048 / 4096), long thin ones included; in these three classes EVERY pixel is compared with the independent reference and the Coq certificate is not attempted (more than 8 pairs or 16 pixels: verdict skip); otherwise resolutions {2x2, 2x3, 3x2} (thorough: up to 3x4 / 4x3) with 1-2 points (thorough: up to 4), dyadic and "
         "random-double coordinates; the Coq model run covers isotropic / axis-aligned / uniform kernels, the "
         "correlated Gaussian is covered by the independent predicate only (verdict skip); a case is non-trivial "
         "when the image has two pixels that differ by more than 1e-9 and a pixel above 1e-9 in magnitude; "
@@ -45,6 +45,7 @@ ASSUMPTIONS = [
     "numpy semantics of broadcasting, slicing and += are as modelled",
     "binary64 rounding of the implementation is bounded by the 1e-9 tolerance, not proved",
     "per-pixel agreement with the true Gaussian mass is certified on the sampled cases only (a test, not a theorem)",
+    "diagrams of more than 8 pairs and grids of more than 16 pixels are judged by the independent predicate alone (no Coq certificate)",
 ]
 TOL = 1e-9
 COQ_DEPS = ["Corr/ImageCorr.vo", "Corr/RegenTac.vo"]
@@ -423,9 +424,154 @@ def near_iso_cases(rng, n):
     return [_near_iso_case(rng, ["var", "cov", "var", "both"][i % 4]) for i in range(n)]
 
 
+# ---- SIZE classes: diagrams / grids just above typical block sizes -------------------------------
+# An implementation that accumulates the pairs (or the mesh corners) a block at a time is right on every small input and on
+# every multiple of its block; what is left over shows only when the size is a block plus a remainder.
+BLOCKS = [32, 48, 64, 100, 128, 256, 500, 512, 1000, 1024, 2048, 4096]
+BULK_LIMIT_PTS, BULK_LIMIT_PIX = 8, 16      # above either, the case is judged by the independent predicate only
+BULK_CONTAINERS = ["f64", "f64", "list_float", "f64_fortran", "f64_view"]
+
+
+def _bulk_n(rng, block, mult=1):
+    """mult * block + remainder, never a multiple of any listed block size (nor of 16)."""
+    while True:
+        n = block * mult + rng.randint(1, max(2, block // 3))
+        if n % 16 and all(n % b for b in BLOCKS):
+            return n
+
+
+def _bulk_points(rng, br, pr, ps, res, n, skew):
+    """n pairs with random-double coordinates: most in and around the window, a tenth on mesh nodes, a tenth far outside;
+    persistence kept positive so that every weight is positive and the pixel sums are well conditioned."""
+    wb, wp = br[1] - br[0], pr[1] - pr[0]
+    pts = []
+    for _ in range(n):
+        u = rng.random()
+        if u < 0.8:
+            b = rng.uniform(br[0] - 0.3 * wb, br[1] + 0.3 * wb); p = rng.uniform(pr[0] - 0.3 * wp, pr[1] + 0.3 * wp)
+        elif u < 0.9:
+            b = br[0] + rng.randint(0, res[0]) * ps; p = pr[0] + rng.randint(0, res[1]) * ps
+        else:
+            b = rng.choice([br[0] - rng.uniform(0.5, 1.5) * wb, br[1] + rng.uniform(0.5, 1.5) * wb])
+            p = pr[1] + rng.uniform(0.1, 1.5) * wp
+        if p < 0.015625:
+            p = 0.015625 + 0.125 * rng.random()
+        pts.append([b, (p + b) if skew else p])
+    return pts
+
+
+def _bulk_case(rng, kcls, wcls, n, res=None):
+    """A diagram of n pairs (n just above a block size) on a small grid."""
+    res = res or rng.choice([(2, 2), (2, 3), (3, 2)])
+    skew = rng.random() < 0.6
+    base = _case(rng, kcls, wcls, "inside", res, 1, rng.random() < 0.5, skew)
+    if base["weight"]["type"] == "linear_ramp" and base["weight"]["low"] == 0.0:
+        base["weight"]["low"] = 0.375
+    base["dgm"] = _bulk_points(rng, base["birth_range"], base["pers_range"], base["pixel_size"], res, n, skew)
+    base["container"] = rng.choice(BULK_CONTAINERS)
+    base["n_jobs"] = None
+    base["cls"] = "bulk/%s/%s/n>%d" % (kcls, base["weight"]["type"], max([b for b in BLOCKS if b < n] or [0]))
+    return base
+
+
+def _bulk_history(rng, kcls, wcls, sizes, coll=False):
+    """Diagrams of different sizes through ONE imager, the larger ones first, the first one (same object) once more at
+    the end: whatever a call leaves behind in a work array shows in the next, shorter, one."""
+    res = rng.choice([(2, 2), (2, 3), (3, 2)])
+    c = _bulk_case(rng, kcls, wcls, sizes[0], res)
+    dgms = [c["dgm"]] + [_bulk_points(rng, c["birth_range"], c["pers_range"], c["pixel_size"], res, m, c["skew"])
+                         for m in sizes[1:]]
+    c["container"] = "f64"
+    if coll:
+        c["history"] = [{"op": "transform_coll", "dgms": dgms + [dgms[0]], "n_jobs": coll if coll > 0 else None}]
+    else:
+        c["history"] = [{"op": "transform", "dgm": g} for g in dgms + [dgms[0]]]
+    c["cls"] = "bulkhist/%s/%s/%s" % ("coll" if coll else "seq", kcls, c["weight"]["type"])
+    return c
+
+
+# (pixels, corners) just above 512 / 1024 / 2048 / 4096 in one of the two counts; long thin grids too
+RES_BIG_QUICK = [(22, 23), (23, 22), (17, 31), (31, 33), (33, 31), (2, 257), (257, 3)]
+RES_BIG_THOROUGH = RES_BIG_QUICK + [(45, 46), (64, 65), (65, 63), (3, 683), (129, 8)]
+
+
+def _grid_case(rng, kcls, wcls, res, npts):
+    """Few pairs on a grid whose pixel / corner count is just above a block size; every pixel is checked."""
+    skew = rng.random() < 0.6
+    ps = rng.choice([0.0625, 0.125, rng.uniform(0.05, 0.15)]) if max(res) < 100 else rng.choice([0.015625, rng.uniform(0.01, 0.02)])
+    blo, plo = _dy(rng, -1, 1), _dy(rng, 0, 1)
+    br, pr = [blo, blo + res[0] * ps], [plo, plo + res[1] * ps]
+    base = _case(rng, kcls, wcls, "inside", (2, 2), 1, True, skew)
+    if base["weight"]["type"] == "linear_ramp" and base["weight"]["low"] == 0.0:
+        base["weight"]["low"] = 0.375
+    base.update(birth_range=br, pers_range=pr, pixel_size=ps, n_jobs=None, container="f64",
+                dgm=_bulk_points(rng, br, pr, ps, res, npts, skew), cls="biggrid/%s/%s/%dx%d" % (kcls, base["weight"]["type"], res[0], res[1]))
+    return base
+
+
+BULK_PLAN_QUICK = [            # (kernel class, block, multiple): the fast path AND the general path above 1024 / 2048 / 4096
+    ("iso_scalar", 1024, 1), ("axis", 1024, 1), ("iso_matrix", 2048, 1), ("uniform", 2048, 1), ("iso_scalar", 4096, 1),
+    ("axis", 4096, 1), ("corr_mid", 1024, 1), ("iso_matrix", 512, 1), ("uniform", 256, 1), ("corr_top", 512, 1),
+    ("iso_scalar", 1024, 2), ("axis", 64, 1),
+]
+BULK_KERNELS = ["iso_scalar", "axis", "iso_matrix", "uniform", "corr_mid", "iso_scalar", "axis", "corr_lo", "iso_matrix",
+                "uniform", "corr_hi", "corr_top"]
+BULK_WEIGHTS = ["pers_nat", "ramp", "user", "pers_real", "pers_nat"]
+
+
+def bulk_cases(rng, n, quick=True):
+    out = []
+    for i in range(n):
+        if quick and i < len(BULK_PLAN_QUICK):
+            kcls, block, mult = BULK_PLAN_QUICK[i]
+        else:
+            kcls, block = BULK_KERNELS[i % len(BULK_KERNELS)], BLOCKS[(i * 5 + i // 12) % len(BLOCKS)]
+            mult = 1 if block >= 2048 else rng.choice([1, 1, 2, 3])
+        out.append(_bulk_case(rng, kcls, BULK_WEIGHTS[i % len(BULK_WEIGHTS)], _bulk_n(rng, block, mult)))
+    return out
+
+
+def bulk_history_cases(rng, n):
+    out = []
+    for i in range(n):
+        kcls = ["iso_scalar", "axis", "iso_matrix", "uniform", "corr_mid"][i % 5]
+        block = [1024, 512, 2048, 256, 1024][i % 5] if i < 5 else rng.choice([128, 256, 512, 1024, 2048])
+        sizes = [_bulk_n(rng, block, 1) + block // 3, _bulk_n(rng, block, 1), rng.randint(3, 9)]
+        out.append(_bulk_history(rng, kcls, BULK_WEIGHTS[i % len(BULK_WEIGHTS)], sizes,
+                                 coll=[False, False, -1, 2][i % 4]))
+    return out
+
+
+def grid_cases(rng, n, quick=True):
+    pool = RES_BIG_QUICK if quick else RES_BIG_THOROUGH
+    kc = ["axis", "iso_scalar", "uniform", "corr_mid", "iso_matrix", "axis", "corr_top", "uniform"]
+    return [_grid_case(rng, kc[i % len(kc)], BULK_WEIGHTS[(i + 1) % len(BULK_WEIGHTS)], pool[(i * 3 + i // len(pool)) % len(pool)],
+                       rng.randint(1, 3)) for i in range(n)]
+
+
+def is_bulk(c):
+    if len(c["dgm"]) > BULK_LIMIT_PTS:
+        return True
+    ps = c["pixel_size"]
+    return round((c["birth_range"][1] - c["birth_range"][0]) / ps) * round((c["pers_range"][1] - c["pers_range"][0]) / ps) > BULK_LIMIT_PIX
+
+
+def _spread(cases, offset):
+    """core.py keeps every (len // 4)-th case as a sample in the evidence file: keep the bulky ones off those slots."""
+    step = max(1, (len(cases) + offset) // 4)
+    for i in range(len(cases)):
+        if (i + offset) % step == 0 and is_bulk(cases[i]):
+            for j in range(len(cases)):
+                if (j + offset) % step and not is_bulk(cases[j]):
+                    cases[i], cases[j] = cases[j], cases[i]
+                    break
+    return cases
+
+
 def search_generate(rng, n):
     """Stream for the failing-input search: the container class first, then the general classes."""
-    cases = (unit_cases(rng, max(16, n // 8)) + near_iso_cases(rng, max(8, n // 20)) +
+    cases = (bulk_cases(rng, max(12, n // 40)) + bulk_history_cases(rng, max(4, n // 150)) + grid_cases(rng, max(7, n // 100)) +
+             unit_cases(rng, max(16, n // 8)) + near_iso_cases(rng, max(8, n // 20)) +
              history_cases(rng, max(8, n // 10)) + negweight_cases(rng, max(9, n // 12)) +
              parallel_cases(rng, max(6, n // 20)) + container_cases(rng, reps=max(1, n // 60)))
     while len(cases) < n:
@@ -442,6 +588,9 @@ def generate(rng, tier):
     cases += parallel_cases(rng, 6 if tier == "quick" else 60)
     cases += unit_cases(rng, 8 if tier == "quick" else 160)
     cases += near_iso_cases(rng, 4 if tier == "quick" else 48)
+    cases += bulk_cases(rng, 12 if tier == "quick" else 72, quick=(tier == "quick"))
+    cases += bulk_history_cases(rng, 4 if tier == "quick" else 20)
+    cases += grid_cases(rng, 5 if tier == "quick" else 36, quick=(tier == "quick"))
     reps = 1 if tier == "quick" else 4
     for rep in range(reps):
         for kcls in KCLS_COQ + KCLS_CORR:
@@ -462,7 +611,7 @@ def generate(rng, tier):
                         npts = rng.randint(1, 4)
                     cases.append(_case(rng, kcls, wcls, place, res, npts, dyadic=rng.random() < 0.5,
                                        skew=rng.random() < 0.6))
-    return cases
+    return _spread(cases, len(corpus()))
 
 
 def corpus():
@@ -533,6 +682,12 @@ def make_input(pts, container):
         return [[int(b), int(d)] for b, d in pts]
     if container == "list_float":
         return [[float(b), float(d)] for b, d in pts]
+    if container == "f64_fortran":          # column-major memory
+        return np.asfortranarray(np.array(pts, dtype=float).reshape(-1, 2))
+    if container == "f64_view":             # two columns of a wider array with one spare row: a non-contiguous view
+        wide = np.full((len(pts) + 1, 5), 1e6)
+        wide[:-1, 1], wide[:-1, 3] = [b for b, _ in pts], [d for _, d in pts]
+        return wide[:-1, 1::2]
     return np.array(pts, dtype=float).reshape(-1, 2)
 
 
@@ -757,7 +912,7 @@ def coq_call(c, bp, pp):
 
 def certifiable(c):
     k = c["kernel"]
-    return not (k["type"] == "gauss_matrix" and k["sxy"] != 0.0)
+    return not (k["type"] == "gauss_matrix" and k["sxy"] != 0.0) and not is_bulk(c)
 
 
 def _stmt(c, o):
@@ -778,7 +933,9 @@ def coq_judge(cases, outs, results):
     lemmas, idx, verdicts = [], [], [None] * len(cases)
     for i, (c, o) in enumerate(zip(cases, outs)):
         if not certifiable(c):
-            verdicts[i] = "skip:correlated Gaussian is not certified inside Coq (independent predicate only)"
+            verdicts[i] = ("skip:large diagram / grid: the Coq certificate is kept for small cases (independent predicate on every pixel)"
+                           if is_bulk(c) else
+                           "skip:correlated Gaussian is not certified inside Coq (independent predicate only)")
             continue
         st = _stmt(c, o)
         if st is None:
@@ -805,7 +962,16 @@ def shrink_candidates(c):
         for i in range(len(h) - 1):
             d = dict(c); d["history"] = h[:i] + h[i + 1:]; yield d
         return
-    if len(c["dgm"]) > 1:
+    if len(c["dgm"]) > 16:
+        # a large diagram: drop halves, quarters, eighths first (single pairs only below 64 pairs)
+        g = c["dgm"]
+        for parts in (2, 4, 8):
+            step = -(-len(g) // parts)
+            for lo in range(0, len(g), step):
+                d = dict(c); d["dgm"] = g[:lo] + g[lo + step:]
+                if d["dgm"]:
+                    yield d
+    if 1 < len(c["dgm"]) <= 64:
         for i in range(len(c["dgm"])):
             d = dict(c); d["dgm"] = c["dgm"][:i] + c["dgm"][i + 1:]; yield d
     if c["weight"]["type"] != "persistence" or c["weight"].get("n") != 1.0:
